@@ -13,6 +13,7 @@ import (
 	"time"
 
 	"github.com/bool64/cache"
+	"github.com/cespare/xxhash/v2"
 )
 
 // linOp is one operation of a concurrent history (call and return stamps from one global atomic counter).
@@ -202,4 +203,235 @@ func TestLinRecord(t *testing.T) {
 		res.Evaluations++
 		res.Steps += len(ops)
 	}
+}
+
+type blockMark struct{}
+
+// keysByBucket finds concrete keys whose shard index (xxhash64 % 128) lies in [lo, hi].
+func keysByBucket(prefix string, lo, hi uint64, n int) [][]byte {
+	var res [][]byte
+
+	for i := 0; len(res) < n && i < 100000; i++ {
+		k := []byte(fmt.Sprintf("%s-%d", prefix, i))
+		if b := xxhash.Sum64(k) % 128; b >= lo && b <= hi {
+			res = append(res, k)
+		}
+	}
+
+	return res
+}
+
+// TestLinStalled records DIRECTED histories: a batch operation (janitor cycle, ExpireAll, DeleteAll) of a sharded map
+// is stalled half-way - a writer parked inside the stats call-out of its Write holds the lock of shard 64, which the
+// batch operation has to pass - and single-key operations on keys of already processed shards (< 50) and of pending
+// shards (> 80) are issued during the stall.  Everything is stamped like in TestLinRecord and judged by MonLin, so the
+// verdict does not depend on the stall having worked.
+func TestLinStalled(t *testing.T) {
+	outp := os.Getenv("VERIF_TRACE_OUT")
+	if outp == "" || os.Getenv("VERIF_LINSTALL") == "" {
+		t.Skip("VERIF_LINSTALL not set")
+	}
+
+	seed := envInt("VERIF_SEED", 1)
+	n := int(envInt("VERIF_N", 60))
+	res := Result{Extra: map[string]interface{}{}}
+
+	defer func() { mustNoErr(writeJSON(os.Getenv("VERIF_OUT"), res), "write result") }()
+
+	f, err := os.Create(outp)
+	mustNoErr(err, "trace out")
+
+	defer f.Close()
+
+	enc := json.NewEncoder(f)
+	models := []string{"k1", "k2", "k3", "k4", "k5", "k6"}
+	stalledOK := 0
+
+	for hi := 0; hi < n; hi++ {
+		rng := rand.New(rand.NewSource(seed*7907 + int64(hi))) //nolint:gosec
+		kind := []string{"ShardedMap", "ShardedMapOf"}[hi%2]
+		batch := []string{"Cleanup", "ExpireAll", "DeleteAll"}[(hi/2)%3]
+		unlimited := rng.Intn(2) == 0
+
+		lo := keysByBucket(fmt.Sprintf("lo%d", hi), 0, 49, 3)
+		hiK := keysByBucket(fmt.Sprintf("hi%d", hi), 81, 127, 3)
+		sentinel := keysByBucket(fmt.Sprintf("se%d", hi), 50, 63, 1)[0]
+		blocker := keysByBucket(fmt.Sprintf("bl%d", hi), 64, 64, 1)[0]
+
+		km := &KeyMap{ByModel: map[string][]byte{}, ByReal: map[string]string{}}
+		for i, k := range append(append([][]byte{}, lo...), hiK...) {
+			km.ByModel[models[i]] = k
+			km.ByReal[string(k)] = models[i]
+		}
+
+		stat := NewStatRec()
+		entered := make(chan struct{})
+		release := make(chan struct{})
+
+		stat.Hook = func(ctx context.Context, metric, name string, val float64) {
+			if metric == cache.MetricWrite && ctx.Value(blockMark{}) != nil {
+				close(entered)
+				<-release
+			}
+		}
+
+		cc := cache.Config{Name: "lin", Stats: stat, TimeToLive: time.Hour, ExpirationJitter: -1,
+			DeleteExpiredAfter: 30 * time.Minute, DeleteExpiredJobInterval: 100000 * time.Hour,
+			ItemsCountReportInterval: 100000 * time.Hour}
+		if unlimited {
+			cc.TimeToLive = cache.UnlimitedTTL
+		}
+
+		be := NewBackend(kind, cc)
+
+		var (
+			stamp int64
+			mu    sync.Mutex
+			ops   []linOp
+			idc   int64
+		)
+
+		record := func(op linOp) {
+			mu.Lock()
+			ops = append(ops, op)
+			mu.Unlock()
+		}
+
+		classCtx := func(cls string) context.Context {
+			switch cls {
+			case "stale":
+				return cache.WithTTL(context.Background(), -1, false)
+			case "old":
+				return cache.WithTTL(context.Background(), -time.Hour, false)
+			}
+
+			return context.Background()
+		}
+
+		do := func(r *rand.Rand, g int, kinds []string) {
+			op := linOp{ID: int(atomic.AddInt64(&idc, 1)), G: g}
+			mk := models[r.Intn(len(models))]
+			op.K = mk
+
+			switch kinds[r.Intn(len(kinds))] {
+			case "Write":
+				op.Op = "Write"
+				op.V = fmt.Sprintf("g%d.%d", g, op.ID)
+				op.Cls = []string{"fresh", "stale", "old", "old"}[r.Intn(4)]
+				op.Call = atomic.AddInt64(&stamp, 1)
+				_ = be.Write(classCtx(op.Cls), km.ByModel[mk], op.V)
+				op.Ret = atomic.AddInt64(&stamp, 1)
+			case "Read":
+				op.Op = "Read"
+				op.Call = atomic.AddInt64(&stamp, 1)
+				rr := be.Read(context.Background(), km.ByModel[mk])
+				op.Ret = atomic.AddInt64(&stamp, 1)
+				op.Res, op.RV = rr.Class, rr.V
+			case "Delete":
+				op.Op = "Delete"
+				op.Call = atomic.AddInt64(&stamp, 1)
+				err := be.Delete(context.Background(), km.ByModel[mk])
+				op.Ret = atomic.AddInt64(&stamp, 1)
+
+				op.Res = "ok"
+				if err != nil {
+					op.Res = "notfound"
+				}
+			}
+
+			record(op)
+		}
+
+		// pre-phase
+		for i := 0; i < 5; i++ {
+			do(rng, 0, []string{"Write"})
+		}
+
+		sentCls := "old"
+		if batch != "Cleanup" {
+			sentCls = "fresh"
+		}
+
+		_ = be.Write(classCtx(sentCls), sentinel, "sentinel")
+
+		// blocker parks inside the stats call-out under the lock of shard 64
+		var wg sync.WaitGroup
+
+		wg.Add(1)
+
+		go func() {
+			defer wg.Done()
+
+			_ = be.Write(context.WithValue(context.Background(), blockMark{}, true), blocker, "blocker")
+		}()
+
+		<-entered
+
+		wg.Add(1)
+
+		go func() {
+			defer wg.Done()
+
+			op := linOp{ID: int(atomic.AddInt64(&idc, 1)), G: 1, Op: batch}
+			op.Call = atomic.AddInt64(&stamp, 1)
+
+			switch batch {
+			case "Cleanup":
+				be.Cleanup()
+			case "ExpireAll":
+				be.ExpireAll(context.Background())
+			case "DeleteAll":
+				be.DeleteAll(context.Background())
+			}
+
+			op.Ret = atomic.AddInt64(&stamp, 1)
+			record(op)
+		}()
+
+		// wait (bounded) until the batch operation has visibly passed the shards below 64
+		deadline := time.Now().Add(50 * time.Millisecond)
+		for time.Now().Before(deadline) {
+			rr := be.Read(context.Background(), sentinel)
+			if (batch == "ExpireAll" && rr.Class == "expired") || (batch != "ExpireAll" && rr.Class == "notfound") {
+				stalledOK++
+
+				break
+			}
+
+			time.Sleep(50 * time.Microsecond)
+		}
+
+		// mid-phase: single-key operations while the batch operation is stalled
+		for i := 0; i < 4+rng.Intn(4); i++ {
+			do(rng, 2, []string{"Write", "Write", "Read", "Delete"})
+		}
+
+		close(release)
+		wg.Wait()
+
+		// post-phase: a full janitor cycle, then every key is read
+		op := linOp{ID: int(atomic.AddInt64(&idc, 1)), G: 0, Op: "Cleanup"}
+		op.Call = atomic.AddInt64(&stamp, 1)
+		be.Cleanup()
+		op.Ret = atomic.AddInt64(&stamp, 1)
+		record(op)
+
+		for _, mk := range models {
+			op := linOp{ID: int(atomic.AddInt64(&idc, 1)), G: 0, Op: "Read", K: mk}
+			op.Call = atomic.AddInt64(&stamp, 1)
+			rr := be.Read(context.Background(), km.ByModel[mk])
+			op.Ret = atomic.AddInt64(&stamp, 1)
+			op.Res, op.RV = rr.Class, rr.V
+			record(op)
+		}
+
+		sort.Slice(ops, func(i, j int) bool { return ops[i].Call < ops[j].Call })
+
+		_ = enc.Encode(map[string]interface{}{"h": 100000 + hi, "kind": kind, "collide": false, "goroutines": 3, "ops": ops,
+			"keys": models, "evict": false, "stalled": batch, "unlimited": unlimited})
+		res.Evaluations++
+		res.Steps += len(ops)
+	}
+
+	res.Extra["stall_observed"] = stalledOK
 }
